@@ -216,7 +216,10 @@ def _pnode_body(spec):
     from twosigma.memento.storage_filesystem import OnDiskPartition
     _trace(("exec", "pnode", spec.get("id"), None))
     parent = pnode_fn(spec["parent"])(spec["parent"]) if spec.get("parent") else None
-    if spec.get("ondisk"):
+    if spec.get("own_from"):
+        # the own partition is one that another call returned (read back from the store when that call is memoized)
+        p = pnode_fn(spec["own_from"])(spec["own_from"])
+    elif spec.get("ondisk"):
         p = OnDiskPartition()
         if spec.get("reassign") and spec["own"]:
             # built incrementally: every key starts with the same initial value, then all but the first get their own
